@@ -21,6 +21,9 @@ CURRENT: "Kernel | None" = None
 
 
 SIM_FD_BASE = 1_000_000
+# the REAL os functions, for the harness's own look at the real file system (several are redirected while seams are installed)
+REAL_LISTDIR = os.listdir
+REAL_ISLINK = os.path.islink
 
 
 class SimCrash(BaseException):
@@ -423,6 +426,23 @@ class Kernel:
         self._event(pid, "stat", p, r)
         return r
 
+    def sys_rename(self, src, dst):
+        """rename / replace: atomic in the namespace (descriptors that are open on either file keep their file's content
+        by name here - the storage layer never renames a file it has open)."""
+        a, b = self.norm(src), self.norm(dst)
+        pid, flt = self._enter("rename", a)
+        if flt is not None:
+            if flt.kind == "kill":
+                self._die(pid)
+            raise OSError(errno.EIO, "injected EIO on rename", a)
+        if a not in self.files:
+            raise FileNotFoundError(errno.ENOENT, "No such file or directory", a)
+        self.files[b] = self.files.pop(a)
+        for fd in self.fdtab.values():
+            if fd.kind == "file" and fd.path == a:
+                fd.path = b
+        self._event(pid, "rename", a, self.canon(b))
+
     def sys_unlink(self, path):
         p = self.norm(path)
         pid, _ = self._enter("unlink", p)
@@ -629,8 +649,15 @@ def sim_open(path, mode="r", buffering=-1, encoding=None, errors=None, newline=N
     k.counters["seam:open"] += 1
     if "b" not in mode:
         raise HarnessError(f"SimFS supports binary modes only, got {mode!r}")
-    fd = k.sys_open(path, mode)
-    raw = SimRaw(k, fd, k.norm(path))
+    if isinstance(path, int):
+        # a descriptor obtained from os.open(): wrapped the way open(fd, mode) / os.fdopen do
+        fd = k.fdtab.get(path - SIM_FD_BASE) if path >= SIM_FD_BASE else None
+        if fd is None:
+            raise OSError(errno.EBADF, "Bad file descriptor")
+        raw = SimRaw(k, fd, fd.path)
+    else:
+        fd = k.sys_open(path, mode)
+        raw = SimRaw(k, fd, k.norm(path))
     m = mode.replace("b", "")
     bs = k.bufsize if buffering in (-1, None) else buffering
     if bs == 0:
